@@ -549,7 +549,8 @@ class UTPM(Ring, RawAlgorithmsMixIn):
             self.data[0,...] -= rhs
         else:
             self_data, rhs_data = UTPM._broadcast_arrays(self.data, rhs.data)
-            self_data[...] -= rhs_data[...]
+            # as in __iadd__ (a real adjoint accumulates the real part)
+            numpy.subtract(self_data, rhs_data, out=self_data, casting="unsafe")
         return self
 
     def __imul__(self,rhs):
